@@ -536,3 +536,32 @@ Definition agg_input (q : select_stmt) (d : db) : option (list field * list row)
            obind (sem_filter (sel_where q) fs rows) (fun kept => Some (fs, kept)))
   | _ => None
   end.
+
+(* ================================================================================== *)
+(* 6. C18: what real inputs look like                                                  *)
+
+(* the shape sql.Parser guarantees for a SELECT: the select list is not empty, `*` only as
+   the whole select list, LIMIT and OFFSET are not negative *)
+Definition parser_shape (q : select_stmt) : bool :=
+  match sel_list q with
+  | [] => false
+  | [_] => true
+  | l => forallb (fun d => match dc_prim d with SPStar => false | _ => true end) l
+  end
+  && (0 <=? sel_limit q)%Z && (0 <=? sel_offset q)%Z.
+
+Fixpoint compatb (a b : row) : bool :=
+  match a, b with
+  | [], [] => true
+  | x :: a', y :: b' => same_tag x y && compatb a' b'
+  | _, _ => false
+  end.
+
+(* what storage.Fetch returns: one value per column in every row, and every column holds
+   values of one Go type (or nil) *)
+Definition table_wf (t : table) : bool :=
+  let '(_, cols, rows) := t in
+  forallb (fun r => Nat.eqb (List.length r) (List.length cols)) rows
+  && forallb (fun r1 => forallb (fun r2 => compatb r1 r2) rows) rows.
+
+Definition db_wf (d : db) : bool := forallb table_wf d.
